@@ -52,6 +52,10 @@ pub struct State {
     /// the write call with this index (0 = first) fails with an I/O error, and every later one
     pub fail_write_call: Option<usize>,
     pub write_calls: usize,
+    /// one read fails with this I/O error kind once exactly `.0` bytes have been delivered (the read
+    /// before it ends there, however much was asked for); later reads deliver data again
+    pub transient_error_at: Option<(usize, std::io::ErrorKind)>,
+    pub transient_done: bool,
 }
 
 #[derive(Clone)]
@@ -81,6 +85,8 @@ impl Scripted {
                 starved: 0,
                 fail_write_call: None,
                 write_calls: 0,
+                transient_error_at: None,
+                transient_done: false,
             })),
             ctx,
         }
@@ -100,7 +106,17 @@ impl AsyncRead for Scripted {
         if req == 0 {
             return Poll::Ready(Ok(()));
         }
-        let limit = st.eof_at.unwrap_or(usize::MAX).min(st.released).min(st.incoming.len());
+        let mut limit = st.eof_at.unwrap_or(usize::MAX).min(st.released).min(st.incoming.len());
+        if let (Some((at, kind)), false) = (st.transient_error_at, st.transient_done) {
+            if st.pos == at {
+                st.transient_done = true;
+                st.log.push(Ev::Mark(format!("read failed with {kind:?}")));
+                return Poll::Ready(Err(std::io::Error::new(kind, "transient read error (scripted)")));
+            }
+            if st.pos < at {
+                limit = limit.min(at);
+            }
+        }
         let avail = limit.saturating_sub(st.pos);
         if avail == 0 {
             if st.eof_at.map(|e| st.pos >= e).unwrap_or(false) {
